@@ -159,6 +159,7 @@ def dir_prop(case, rec):
 def run(ctx):
     ctx.search('borrowers', cases, prop, ctx.pick(24000, 500000))
     ctx.search('real-borrowers', dir_cases, dir_prop, ctx.pick(4000, 60000))
+    orch.small_sweep(ctx, lambda sc, rec: prop(sc, rec))
 
 
 def replay(ctx, data):
